@@ -162,7 +162,7 @@ pub fn gen_case(prop: &str, tier: Tier, seed: u64, idx: u64) -> Option<Case> {
             hist_case(h)
         }
         "C09" => {
-            let o = GenOpts { hostile_pct: 0, reorder_pct: 40, audio_pct: 100, meta_pct: 10, nonzero_start_pct: 50, max_video: 12, max_audio: 16, ..Default::default() };
+            let o = GenOpts { hostile_pct: 10, reorder_pct: 40, audio_pct: 100, meta_pct: 10, nonzero_start_pct: 50, max_video: 12, max_audio: 16, ..Default::default() };
             let mut cfg = crate::gen::hist::gen_cfg(r, &o);
             if cfg.audio_effective().is_none() {
                 cfg.audio = Some(AudioCfg { kind: 1, rate: 48_000, channels: 2 });
